@@ -175,13 +175,17 @@ func (s *trackStream) Recv() (*lnrpc.Payment, error) {
 		return &lnrpc.Payment{PaymentHash: s.hash, Status: lnrpc.Payment_SUCCEEDED, PaymentPreimage: st.Preimage}, nil
 	case st.PaymentStatus == lightning.Pending:
 		// LND records a failure reason (time-out, no further route) as soon as it gives up starting new attempts, while
-		// the payment stays IN_FLIGHT for as long as one HTLC is out - and that HTLC can still settle. Every other
-		// in-flight answer of this imitation (starting with the first) carries such a reason.
+		// the payment stays IN_FLIGHT for as long as one HTLC is out - and that HTLC can still settle. Of every three
+		// in-flight answers of this imitation the first carries such a reason, the second says INITIATED, the third is bare.
 		p := &lnrpc.Payment{PaymentHash: s.hash, Status: lnrpc.Payment_IN_FLIGHT}
 		if s.r != nil {
 			s.r.inflightSeen++
-			if s.r.inflightSeen%2 == 1 {
+			switch s.r.inflightSeen % 3 {
+			case 1:
 				p.FailureReason = lnrpc.PaymentFailureReason_FAILURE_REASON_TIMEOUT
+			case 2:
+				// registered, no HTLC sent yet (lnd >= 0.16 reports this as a status of its own): as undecided as IN_FLIGHT
+				p.Status = lnrpc.Payment_INITIATED
 			}
 		}
 		return p, nil
